@@ -209,6 +209,21 @@ pub fn replay(args: &Args) {
                 if td.total_weight() != total || (total > 1 && (bmin != min || bmax != max || bcs != cs)) {
                     bad.push(json!({"what":"state","got":format!("{bmin} {bmax} {bcs:?}")}));
                 }
+                // merged into another digest, the decoded digest contributes its true extremes and weight
+                {
+                    let mid = min / 2.0 + max / 2.0;
+                    let mut acc = TDigestMut::new(k);
+                    acc.update(mid);
+                    acc.merge(&td);
+                    if acc.min_value() != Some(min.min(mid)) || acc.max_value() != Some(max.max(mid)) || acc.total_weight() != total + 1 {
+                        bad.push(json!({"what":"extremes after merge","got":format!("{:?} {:?} {}", acc.min_value(), acc.max_value(), acc.total_weight())}));
+                    }
+                    let mut acc2 = TDigestMut::new(k);
+                    acc2.merge(&td);
+                    if acc2.min_value() != Some(min) || acc2.max_value() != Some(max) {
+                        bad.push(json!({"what":"extremes after merge into an empty digest","got":format!("{:?} {:?}", acc2.min_value(), acc2.max_value())}));
+                    }
+                }
                 // the merge direction is part of the state (it decides how the next compression clusters)
                 if (back[5] & 4 != 0) != (li % 2 == 1) {
                     bad.push(json!({"what":"reverse-merge flag","got":back[5]}));
